@@ -1,9 +1,10 @@
 (* C05 - Client: every operation completes exactly once under cancel, Close and failure.
    Property theorems only; every proof is `exact <lemma>` (lemmas in coq/cli/CliC05.v, CliProofs.v, CliLive.v,
-   CliHist.v, CliWg.v; invariants in coq/cli/CliInv.v, CliRet.v, CliCtx.v, CliOps.v, CliHist.v, CliWg.v). *)
+   CliHist.v, CliWg.v, CliStop.v, CliCloseWait.v, CliGo.v, CliFail.v, CliBatch.v, CliProgress.v, CliProgress2.v; invariants in coq/cli/CliInv.v, CliRet.v, CliCtx.v, CliOps.v, CliHist.v, CliWg.v,
+   CliStop.v). *)
 From Coq Require Import List NArith ZArith Bool Arith.
 From RecordUpdate Require Import RecordUpdate.
-From JV Require Import Bytes Msg CliModel CliLemmas CliInv CliRet CliProofs CliC05 CliCtx CliOps CliHist CliLive CliWg.
+From JV Require Import Bytes Msg CliModel CliLemmas CliInv CliRet CliProofs CliC05 CliCtx CliOps CliHist CliLive CliWg CliSend CliNoStop CliStep CliStop CliObs CliCloseWait CliGo CliOpTrans CliFail CliBatch CliProgress CliProgress2.
 Import ListNotations.
 
 (* EXACTLY ONE RETURN (full statement).  In every history of every schedule each operation (Call, Batch, Notify,
@@ -99,3 +100,147 @@ Theorem c05_after_stop : forall s n c s', err s = Some c -> step_raw s (LRelSend
   hist s' = hist s ++ [ORet n (RetFail (EStopped c))] /\ pending s' = pending s /\ slots s' = slots s.
 Proof. exact send_after_stop. Qed.
 Print Assumptions c05_after_stop.
+
+(* THE FIRST STOP CAUSE WINS.  Once c.err is set no step of any kind changes it (one step; any continuation of
+   the trace), and stopLocked closed the channel exactly if the client has stopped: [closes s] is 1 once stopped and 0
+   before - never more than one Close of the channel. *)
+Theorem c05_err_stable : forall c tr s, traces_to c tr s ->
+  (forall l s' os c0, step s l = Some (s', os) -> err s = Some c0 -> err s' = Some c0)
+  /\ (forall tr2 s2 c0, traces_to c (tr ++ tr2) s2 -> err s = Some c0 -> err s2 = Some c0)
+  /\ closes s = (if is_some (err s) then 1 else 0) /\ closes s <= 1.
+Proof. exact err_stable. Qed.
+Print Assumptions c05_err_stable.
+
+(* ONSTOP RUNS EXACTLY ONCE PER CLIENT, WITH THE FIRST STOP CAUSE (every trace).  [onstop_count h]: number of OnStop
+   observations in h.  It is at most 1; it is 1 exactly when the client has stopped and no Close whose stopLocked
+   recorded the cause is still in done.Wait() ([stopper_waiting]: pc = PCloseWait true; in Go OnStop runs in the
+   goroutine that stopped the client - the reader right after stopLocked, a Close after done.Wait() returned); such a
+   waiting Close means the cause is errClientStopped and OnStop has not run yet; once the reader stopped the client
+   or the stopping Close has returned OnStop has run; and its argument is the recorded (first, c05_err_stable) cause. *)
+Theorem c05_onstop_once : forall c tr s, traces_to c tr s ->
+  onstop_count (hist s) <= 1
+  /\ onstop_count (hist s) + cnt stopper_waiting (ops s) = (if is_some (err s) then 1 else 0)
+  /\ (forall n o, op_at s n = Some o -> o_pc o = PCloseWait true -> err s = Some SCClosed /\ onstop_count (hist s) = 0)
+  /\ (err s <> None -> (forall n o, op_at s n = Some o -> o_pc o <> PCloseWait true) -> onstop_count (hist s) = 1)
+  /\ (forall c0, In (OOnStop c0) (hist s) -> err s = Some c0).
+Proof. exact onstop_once. Qed.
+Print Assumptions c05_onstop_once.
+
+(* CLOSE RETURNS ONLY AFTER ALL CALLBACK HANDLERS HAVE RETURNED (every trace, no quiescence hypothesis).
+   In every state the wait group counts exactly the reader (unless exited), the deliveries not yet run and the callback
+   handlers that have not finished.  If some Close has returned then the wait group is 0: the reader has exited, every
+   delivery is done, every callback handler is done (none alive), the client has stopped, and the value Close returned
+   is the stop cause unless it is uninteresting ([close_ret]).  Ordered form: in the part of the history after the
+   return of a Close there is no channel operation (OSendReq / OSendRsp / OClose), no callback handler start and no
+   OnNotify ([after_close_forbidden]). *)
+Theorem c05_close_waits : forall c tr s, traces_to c tr s ->
+  wg s = rdc s + cnt deliv_parked (delivs s) + cnt cb_alive (cbs s)
+  /\ (forall n r, In (ORet n (RetClose r)) (hist s) ->
+        wg s = 0 /\ rd s = RExited /\ (forall d, In d (delivs s) -> d_st d = DDone) /\ (forall cb, In cb (cbs s) -> cb_st cb = CbDone)
+        /\ err s <> None /\ RetClose r = close_ret s)
+  /\ (forall h1 n r h2, hist s = h1 ++ ORet n (RetClose r) :: h2 -> forall o, In o h2 -> after_close_forbidden o = false).
+Proof. exact close_waits. Qed.
+Print Assumptions c05_close_waits.
+
+(* LEAVING NO GOROUTINE BEHIND.  [gcount s] counts the logical goroutines alive: the reader unless exited, deliveries
+   not yet run, callback handlers not finished, context watchers (waitComplete) blocked or parked, callers that have
+   not returned.  In a quiescent state of a stopped client whose reader is able to exit - the channel's Close unblocks
+   Recv (the property's assumption "the peer closes its end after seeing EOF"), or the reader has exited - there is
+   none: the reader has exited, every operation has returned, every watcher has ended (the first wait() on a response
+   settles it and cancels its context, and a returned operation has settled every request it registered), every
+   delivery and every callback handler is done. *)
+Theorem c05_no_goroutine_left : forall c tr s, traces_to c tr s -> quiescent s = true -> err s <> None ->
+  (c_unblock s = true \/ rd s = RExited) ->
+  gcount s = 0
+  /\ rd s = RExited /\ (forall o, In o (ops s) -> o_pc o = PDone) /\ (forall sl, In sl (slots s) -> watch_alive sl = false)
+  /\ (forall d, In d (delivs s) -> d_st d = DDone) /\ (forall cb, In cb (cbs s) -> cb_st cb = CbDone).
+Proof. exact no_goroutine_left. Qed.
+Print Assumptions c05_no_goroutine_left.
+
+(* THE OUTCOME OF AN OPERATION THAT FAILED (every trace).  If operation n returned the error f then it is finished with
+   that value; none of the ids it allocated is registered, pending, written or watched; no request record whose Send
+   succeeded carries one of its ids ([no_record_with s o P]: no [OSendReq ok ..] of the history with P ok has a member
+   whose id is the id of a slot of o); and by cases on f:
+     EStopped c0 (operation on a stopped client): c0 is the recorded stop cause and NO request record at all carries
+       its ids - it failed without transmitting;
+     ESendFail ("a non-nil error if its channel failed"): its complete request record [req_obs false s o] is in the
+       history with a failed Send - the transport refused it;
+     EBadParams: one of its specs does not marshal, and nothing was transmitted;
+     EEmptyBatch: it has no specs and allocated nothing. *)
+Theorem c05_fail_outcome : forall c tr s, traces_to c tr s -> forall n f, In (ORet n (RetFail f)) (hist s) ->
+  exists o, op_at s n = Some o /\ o_pc o = PDone /\ o_ret o = Some (RetFail f)
+    /\ (forall i, In i (o_slots o) ->
+          exists sl, slot_at s i = Some sl /\ sl_op sl = n /\ sl_reg sl = false /\ sl_buf sl = None /\ sl_watch sl = WNone
+                     /\ assoc (id_text (sl_id sl)) (pending s) = None)
+    /\ no_record_with s o (fun ok => ok = true)
+    /\ match f with
+       | EStopped c0 => err s = Some c0 /\ no_record_with s o (fun _ => True)
+       | ESendFail => In (req_obs false s o) (hist s)
+       | EBadParams => has_bad (o_specs o) /\ no_record_with s o (fun _ => True)
+       | EEmptyBatch => o_specs o = [] /\ o_slots o = []
+       end.
+Proof. exact fail_outcome. Qed.
+Print Assumptions c05_fail_outcome.
+
+(* a Notify that returned nil: its notification (no id) was handed to the transport and the Send succeeded *)
+Theorem c05_notify_outcome : forall c tr s, traces_to c tr s -> forall n, In (ORet n RetNotify) (hist s) ->
+  exists o sp, op_at s n = Some o /\ o_kind o = KNotify /\ o_specs o = [sp] /\ sp_notify sp = true
+               /\ In (OSendReq true false [([], sp_method sp, sp_params sp)]) (hist s).
+Proof. exact notify_outcome. Qed.
+Print Assumptions c05_notify_outcome.
+
+(* OPERATIONS ON A STOPPED CLIENT FAIL WITHOUT TRANSMITTING (trace-level form of c05_after_stop).  If the client has
+   stopped in s1 and the next label issues operation n, then in every later state: its Send never succeeded and never
+   failed (it never reached the transport), no request record anywhere in the history carries one of its ids, and all
+   it can have returned is the stop error or a local validation error (or, for a Close, Close's own result). *)
+Theorem c05_after_stop_trace : forall c tr1 s1 n k specs tr2 s, traces_to c tr1 s1 -> err s1 <> None ->
+  traces_to c (tr1 ++ LOp n k specs :: tr2) s ->
+  forall o, op_at s n = Some o ->
+    sent' o = false /\ send_failed o = false
+    /\ no_record_with s o (fun _ => True)
+    /\ (forall r, In (ORet n r) (hist s) ->
+          match r with RetFail (EStopped _) | RetFail EBadParams | RetFail EEmptyBatch | RetClose _ => True | _ => False end).
+Proof. exact after_stop_trace. Qed.
+Print Assumptions c05_after_stop_trace.
+
+(* BATCH OUTCOME (the Batch analogue of clause 4 of c05_watch_outcome, every trace).  The responses of a returned
+   Batch are, per slot of the operation in allocation (= spec) order, the pair of the slot's id and batch_res of the
+   slot's value v, and for each entry ([slot_outcome]): if v came from a delivery (v_src = SPeer j k) it is the payload of
+   member k of inbound record j, whose id is that entry's id, and OnCancel never ran for it; if it came from the
+   entry's watcher (SWatch) the entry's context ended with cause cw because the caller's context ended with cw or the
+   client stopped, v is the error of that cause (context.Canceled / DeadlineExceeded, or an internal error carrying an
+   interesting stop cause), and OnCancel ran exactly once iff configured. *)
+Theorem c05_batch_outcome : forall c tr s, traces_to c tr s ->
+  forall n rs, In (ORet n (RetBatch rs)) (hist s) ->
+    exists o, op_at s n = Some o /\ o_kind o = KBatch
+      /\ Forall2 (fun i p => exists sl v, slot_at s i = Some sl /\ sl_op sl = n /\ sl_buf sl = Some v
+                               /\ p = (id_text (sl_id sl), batch_res v) /\ slot_outcome s sl v) (o_slots o) rs.
+Proof. exact batch_outcome. Qed.
+Print Assumptions c05_batch_outcome.
+
+(* LIVENESS GROUNDWORK.  (a) Every release label offered by [enabled_rel] (a goroutine parked at a scheduling point) is
+   enabled.  (b) Fuel adequacy of [settle]: after every step from a reachable state no unhooked micro step is left, so
+   the state returned by [step] has run ALL consequences that happen without passing a scheduling point (a caller
+   whose value arrived has taken it and returned, a Close whose wait group emptied has returned); hence a reachable
+   state is quiescent iff nothing is parked. *)
+Theorem c05_settle_adequate : forall c s, reach c s ->
+  settle1 s = None
+  /\ (quiescent s = true <-> enabled_rel s = [])
+  /\ (forall l, In l (enabled_rel s) -> is_rel l = true /\ exists s' os, step s l = Some (s', os) /\ settle1 s' = None).
+Proof. exact settle_adequate_all. Qed.
+Print Assumptions c05_settle_adequate.
+
+(* (c) PROGRESS: releasing any parked goroutine strictly decreases [potential] (work left at the scheduling points:
+   specs still to be given an id, sends, watcher / delivery / callback-reply / reader-error / Close critical sections
+   still to run, records still to be read, the stop still to happen); hence every history can be extended, by releases
+   only - no new API call, no peer or transport event - to a quiescent one, in at most [potential s] steps: no
+   goroutine of the client spins or stays runnable forever. *)
+Theorem c05_release_progress : forall c s l s' os, reach c s -> is_rel l = true -> step s l = Some (s', os) ->
+  potential s' < potential s.
+Proof. exact release_decreases. Qed.
+Print Assumptions c05_release_progress.
+
+Theorem c05_quiescent_reachable : forall c tr s, traces_to c tr s ->
+  exists tr2 s', Forall (fun l => is_rel l = true) tr2 /\ traces_to c (tr ++ tr2) s' /\ quiescent s' = true.
+Proof. exact trace_drains. Qed.
+Print Assumptions c05_quiescent_reachable.
